@@ -34,6 +34,27 @@ theorem C09_walk_counterexample : ¬ C09_walk := fun h =>
 /-- the callbacks of the counterexample: connected 2, then connected 5 whose parent 4 was never announced -/
 example : (run Cex.W (init Cex.W [1, 2, 3] 1 0 {}) Cex.evs).2 = [.conn 1 2 [], .conn 2 5 []] := by decide
 
+namespace CexU
+/-- tree: 1 ← 2 ← 3 ← 7 (7 pays watched script 9) and 1 ← 4 ← 5 ← 8 -/
+def W : World :=
+  { prev := fun b => match b with | 2 => 1 | 3 => 2 | 7 => 3 | 4 => 1 | 5 => 4 | 8 => 5 | _ => 0,
+    height := fun b => match b with | 2 => 1 | 3 => 2 | 7 => 3 | 4 => 1 | 5 => 2 | 8 => 3 | _ => 0,
+    late := fun _ => true,
+    txs := fun b => match b with | 7 => [⟨70, [], [9]⟩] | _ => [] }
+def w : Watch := { addrs := [9], wl := [9] }
+/-- catch up to 3 and subscribe; 7 connects; the chain reorganises three deep (unread: D7 D3 D2 C4 C5 C8); the queued
+`Connected 7` is processed first and its block fetch fails: the rescan drops to the catch-up arm on block 3, its
+subscription (and the disconnects) is replaced at the next subscribe; the catch-up step announces 8, child of 5 -/
+def evs : List Ev := [.step, .step, .step, .grow 7, .reorg 3 [4, 5, 8], .setB [true], .connected 7, .step]
+end CexU
+
+/-- second refutation of `C09_walk`, by the other recorded shape -/
+theorem C09_walk_counterexample_unread :
+    walkFrom CexU.W 1 (run CexU.W (init CexU.W [1, 2, 3] 1 0 CexU.w) CexU.evs).2 = false := by decide
+
+example : (run CexU.W (init CexU.W [1, 2, 3] 1 0 CexU.w) CexU.evs).2 =
+    [.conn 1 2 [], .conn 2 3 [], .conn 3 8 []] := by decide
+
 /-- the best chain is a path of the tree -/
 def linkedB (W : World) : List Nat → Bool
   | a :: b :: r => (W.prev b == a) && linkedB W (b :: r)
@@ -62,7 +83,7 @@ block of the best chain at its height (no reorganisation reached at/below it whi
 of `shape=reorg-during-catchup`) and the best chain is a path of the tree.  The other two conjuncts are well-formedness of
 the inputs: a `Disconnected` names the parent as the new tip (blockmanager does), and the caller did not ask for silent
 rewinds (`DisableDisconnectedNtfns`, which by design skips callbacks). -/
-def stepGoodB (W : World) (s : St) (e : Ev) : Bool :=
+def stepOkB (W : World) (s : St) (e : Ev) : Bool :=
   match e with
   | .step => !(!s.dead && !s.current && decide (s.curH + 1 ≤ best s)) ||
              (linkedB W s.chain && (s.chain[s.curH]? == some s.cur))
@@ -70,9 +91,60 @@ def stepGoodB (W : World) (s : St) (e : Ev) : Bool :=
   | .update u => !u.quiet
   | _ => true
 
-def goodB (W : World) : St → List Ev → Bool
-  | _, [] => true
-  | s, e :: es => stepGoodB W s e && goodB W (step W s e).1 es
+/-! The two recorded shapes, tracked along the run exactly as the trace driver does (`Spec.Rescan.staleNext`). -/
+
+/-- label after an event: `s` before, `s'` after -/
+def trackNext (st : Stale) (s s' : St) : Stale := staleNext st (onChainB s'.chain s'.cur s'.curH) s.current
+
+def track0 (s : St) : Stale := staleNext .no (onChainB s.chain s.cur s.curH) false
+
+/-- the catch-up arm is about to advance by height -/
+def advancing (s : St) : Bool := !s.dead && !s.current && decide (s.curH + 1 ≤ best s)
+
+/-- HYPOTHESIS of the partial walk theorem, per event.  `step`: when the catch-up arm is about to advance, the label is
+`no`, i.e. NEITHER `shape=reorg-during-catchup` NOR `shape=reorg-unread-at-catchup` (and the best chain is a path of the
+tree).  The other conjuncts are well-formedness of the inputs, as in `stepOkB`. -/
+def stepGoodB (W : World) (st : Stale) (s : St) (e : Ev) : Bool :=
+  match e with
+  | .step => !(advancing s) || (linkedB W s.chain && (st == .no))
+  | .disconnected b tip => tip == W.prev b
+  | .update u => !u.quiet
+  | _ => true
+
+def goodB (W : World) : Stale → St → List Ev → Bool
+  | _, _, [] => true
+  | st, s, e :: es => stepGoodB W st s e && goodB W (trackNext st s (step W s e).1) (step W s e).1 es
+
+/-- the label of the first catch-up step that advances from a block off the best chain (`no`: there is none) -/
+def firstShape (W : World) : Stale → St → List Ev → Stale
+  | _, _, [] => .no
+  | st, s, e :: es =>
+    if e == .step && advancing s && st != .no then st
+    else firstShape W (trackNext st s (step W s e).1) (step W s e).1 es
+
+/-- the label says `no` only when the current block is on the best chain -/
+def TrackInv (st : Stale) (s : St) : Prop := st = .no → onChainB s.chain s.cur s.curH = true
+
+theorem staleNext_no (st : Stale) (oc a : Bool) (h : staleNext st oc a = .no) : oc = true := by
+  cases oc with
+  | true => rfl
+  | false => cases st <;> cases a <;> simp [staleNext] at h
+
+theorem trackInv_next (st : Stale) (s s' : St) : TrackInv (trackNext st s s') s' :=
+  fun h => staleNext_no _ _ _ h
+
+theorem trackInv_0 (s : St) : TrackInv (track0 s) s := fun h => staleNext_no _ _ _ h
+
+theorem stepGood_ok (W : World) (st : Stale) (s : St) (e : Ev) (hi : TrackInv st s)
+    (hg : stepGoodB W st s e = true) : stepOkB W s e = true := by
+  cases e with
+  | step =>
+    simp only [stepGoodB, advancing, Bool.or_eq_true, Bool.and_eq_true, beq_iff_eq] at hg
+    simp only [stepOkB, Bool.or_eq_true, Bool.and_eq_true]
+    rcases hg with h | ⟨h1, h2⟩
+    · exact Or.inl h
+    · exact Or.inr ⟨h1, by simpa [onChainB] using hi h2⟩
+  | _ => exact hg
 
 theorem notifyBlock_shape (W : World) (s : St) :
     let r := notifyBlock W s
@@ -113,7 +185,7 @@ theorem catchUp_walk (W : World) (s : St)
         exact ⟨b, by simp [walkEnd, walkStep, hp], Or.inr hcur.symm⟩
 
 /-- one event: the callbacks continue the walk from the rescan's current block and end at its new current block -/
-theorem step_walk (W : World) (s : St) (e : Ev) (hd : s.dead = false) (hg : stepGoodB W s e = true) :
+theorem step_walk (W : World) (s : St) (e : Ev) (hd : s.dead = false) (hg : stepOkB W s e = true) :
     ∃ c, walkEnd W s.cur (step W s e).2 = some c ∧ ((step W s e).1.dead = true ∨ c = (step W s e).1.cur) := by
   obtain ⟨chain, fS, bS, fpS, cur, curH, scanning, current, queue, timer, w, dead⟩ := s
   simp only at hd
@@ -146,7 +218,7 @@ theorem step_walk (W : World) (s : St) (e : Ev) (hd : s.dead = false) (hg : step
           | retry => exact ⟨cur, by simp [walkEnd], Or.inr hcur.symm⟩
           | err => exact ⟨cur, by simp [walkEnd], Or.inr hcur.symm⟩
   | disconnected b tip =>
-    simp only [stepGoodB, beq_iff_eq] at hg
+    simp only [stepOkB, beq_iff_eq] at hg
     cases current with
     | false => exact ⟨cur, by simp [step, walkEnd]⟩
     | true =>
@@ -170,7 +242,7 @@ theorem step_walk (W : World) (s : St) (e : Ev) (hd : s.dead = false) (hg : step
         simp only [step, Bool.false_or, Bool.not_true, Bool.false_eq_true, ↓reduceIte, Bool.or_self]
         exact ⟨c, hw, Or.inr hcc⟩
   | update u =>
-    have hq : u.quiet = false := by simpa [stepGoodB] using hg
+    have hq : u.quiet = false := by simpa [stepOkB] using hg
     simp only [step, Bool.false_eq_true, ↓reduceIte, applyUpdate]
     by_cases hr : (u.rewind == 0) = true
     · simp only [hr, ↓reduceIte]
@@ -201,16 +273,16 @@ theorem step_walk (W : World) (s : St) (e : Ev) (hd : s.dead = false) (hg : step
         (by
           intro hle
           have hg' := hg
-          simp only [stepGoodB, Bool.not_false, Bool.and_self, Bool.true_and, Bool.or_eq_true, Bool.not_eq_true',
+          simp only [stepOkB, Bool.not_false, Bool.and_self, Bool.true_and, Bool.or_eq_true, Bool.not_eq_true',
             decide_eq_false_iff_not, Bool.and_eq_true, beq_iff_eq] at hg'
           rcases hg' with h | h
           · exact absurd hle h
           · exact h)
       simpa [step] using this
 
-theorem walk_run (W : World) (evs : List Ev) (s : St) (c : Nat) (hc : s.dead = true ∨ c = s.cur)
-    (hg : goodB W s evs = true) : walkFrom W c (run W s evs).2 = true := by
-  induction evs generalizing s c with
+theorem walk_run (W : World) (evs : List Ev) (st : Stale) (s : St) (c : Nat) (hc : s.dead = true ∨ c = s.cur)
+    (hi : TrackInv st s) (hg : goodB W st s evs = true) : walkFrom W c (run W s evs).2 = true := by
+  induction evs generalizing st s c with
   | nil => rfl
   | cons e es ih =>
     by_cases hd : s.dead = true
@@ -218,18 +290,18 @@ theorem walk_run (W : World) (evs : List Ev) (s : St) (c : Nat) (hc : s.dead = t
     · have hd' : s.dead = false := by simpa using hd
       have hcs : c = s.cur := by rcases hc with h | h; exact absurd h hd; exact h
       simp only [goodB, Bool.and_eq_true] at hg
-      obtain ⟨c', hw, hc'⟩ := step_walk W s e hd' hg.1
+      obtain ⟨c', hw, hc'⟩ := step_walk W s e hd' (stepGood_ok W st s e hi hg.1)
       simp only [run]
       rw [walkFrom_append, hcs, hw]
-      exact ih (step W s e).1 c' hc' hg.2
+      exact ih _ (step W s e).1 c' hc' (trackInv_next st s _) hg.2
 
-/-- PARTIAL walk clause: every history without the F13 shape (and with well-formed notifications, no silent rewinds)
+/-- PARTIAL walk clause: every history exhibiting NEITHER recorded shape (and with well-formed notifications, no silent rewinds)
 yields a valid walk from the start block — growth, reorganisations of any depth while current or while blocks wait in
 the retry queue, fetch failures, updates and rewinds at any moment included. -/
 theorem C09_walk_partial (W : World) (chain : List Nat) (start startH : Nat) (w : Watch) (evs : List Ev)
-    (hg : goodB W (init W chain start startH w) evs = true) :
+    (hg : goodB W (track0 (init W chain start startH w)) (init W chain start startH w) evs = true) :
     walkFrom W start (run W (init W chain start startH w) evs).2 = true :=
-  walk_run W evs _ start (Or.inr rfl) hg
+  walk_run W evs _ _ start (Or.inr rfl) (trackInv_0 _) hg
 
 /-- In the current arm the walk clause is unconditional: whatever notification arrives (any block, any order, any fetch
 outcome) and whenever the retry timer fires, a connected callback is only issued for a child of the current block and a
@@ -238,7 +310,7 @@ theorem C09_walk_current_arm (W : World) (s : St) (b : Nat) (e : Ev) (hd : s.dea
     (he : e = .connected b ∨ e = .tick ∨ e = .disconnected b (W.prev b)) :
     ∃ c, walkEnd W s.cur (step W s e).2 = some c ∧ ((step W s e).1.dead = true ∨ c = (step W s e).1.cur) := by
   apply step_walk W s e hd
-  rcases he with h | h | h <;> subst h <;> simp [stepGoodB]
+  rcases he with h | h | h <;> subst h <;> simp [stepOkB]
 
 /-- a reorganisation that stays above the rescan's height keeps its current block on the best chain (so the hypothesis of
 `C09_walk_partial` can only be lost by a reorganisation reaching at/below it, or by growth never) -/
@@ -255,13 +327,23 @@ theorem C09_reorg_above_keeps_cur (s : St) (d : Nat) (bs : List Nat) (W : World)
 def goodEvs : List Ev := [.step, .step, .step, .reorg 1 [6], .disconnected 3 2, .connected 6,
     .update { rewind := 1 }, .step, .step]
 
-example : goodB Cex.W (init Cex.W [1, 2, 3] 1 0 {}) goodEvs = true := by decide
+example : goodB Cex.W (track0 (init Cex.W [1, 2, 3] 1 0 {})) (init Cex.W [1, 2, 3] 1 0 {}) goodEvs = true := by decide
 
 example : (run Cex.W (init Cex.W [1, 2, 3] 1 0 {}) goodEvs).2 =
     [.conn 1 2 [], .conn 2 3 [], .disc 2 3, .conn 2 6 [], .disc 2 6, .conn 2 6 []] := by decide
 
 /-- and it is exactly what the counterexample violates -/
-example : goodB Cex.W (init Cex.W [1, 2, 3] 1 0 {}) Cex.evs = false := by decide
+example : goodB Cex.W (track0 (init Cex.W [1, 2, 3] 1 0 {})) (init Cex.W [1, 2, 3] 1 0 {}) Cex.evs = false := by decide
+
+/-- ... with the label the driver prints for it -/
+example : firstShape Cex.W (track0 (init Cex.W [1, 2, 3] 1 0 {})) (init Cex.W [1, 2, 3] 1 0 {}) Cex.evs = .catchup := by decide
+
+/-- the second counterexample is excluded by the hypothesis too, under the other label -/
+example : goodB CexU.W (track0 (init CexU.W [1, 2, 3] 1 0 CexU.w)) (init CexU.W [1, 2, 3] 1 0 CexU.w) CexU.evs = false := by
+  decide
+
+example : firstShape CexU.W (track0 (init CexU.W [1, 2, 3] 1 0 CexU.w)) (init CexU.W [1, 2, 3] 1 0 CexU.w) CexU.evs
+    = .unread := by decide
 
 /-! ## no-miss -/
 
